@@ -273,6 +273,19 @@ def run(ctx):
                 ok = len(vals) == 1 and vals[0]["t"] == "q" and [int(e["v"]) for e in vals[0]["v"]] == want and all(e["d"] == "hex" for e in vals[0]["v"])
                 if not ok:
                     bad("block", "%s: got %s; expected the byte sequence %s" % (desc, json.dumps(vals)[:150], want), case)
+    # location attributes: one element per range with the stored operations and operands
+    from vlib import dwloc
+    import importlib
+    c17 = importlib.import_module("checks.C17")
+    nops = 0
+    for version in (3, 4):
+        f, ltests = c17.build_loc_forest(version)
+        path = os.path.join(d, "c07-loc-v%d.o" % version)
+        write_object(f, path)
+        for die, name, elements in ltests:
+            evaluations += 1
+            nops += dwloc.check_location(path, die.off, C(name), elements, lambda what, case: bad("loc", what, case), "%s of DIE %#x (DWARF %d)" % (name, die.off, version))
+    total += nops
     common.report_broken_obligations(ctx, oblig, bool(ctx.violations))
     ctx.cov.update({
         "evaluations": evaluations, "distinct_nontrivial": total,
